@@ -32,6 +32,11 @@ def plan(tier, seed):
                           shards=core.NCPU - 1)
     specs.append({'prop': PROP, 'tier': tier, 'seed': seed, 'exhaustive': True,
                   'nmax': 6 if tier == 'quick' else 9, 'hashseed': 0})
+    if tier == 'thorough':
+        # the repository's own tests with the contracts switched on
+        specs.append({'prop': PROP, 'tier': tier, 'seed': seed,
+                      'shard': 9000, 'mode': 'repo-tests',
+                      'hashseed': 0})
     return specs
 
 
@@ -192,6 +197,13 @@ def run_case(seed, idx, rec):
 
 
 def run(spec, rec):
+    if spec.get('mode') == 'repo-tests':
+        core.repo_tests_under_contracts(['Dataset'],
+                                        ['tests/eponine/test_dataset.py', 'valjean/eponine/dataset.py', 'tests/eponine/tripoli4/test_scan.py'],
+                                        rec, {'mode': 'repo-tests'})
+        for name in DECIDING:
+            rec.count(name, 0)
+        return
     warnings.simplefilter('ignore')
     contracts.install(['Dataset'])
     if spec.get('exhaustive'):
